@@ -11,7 +11,7 @@ func GenerateDatatype(datatype profile.DatatypeRule, iriExpander *misc.IriExpand
 	var rego []string
 
 	// Let's get the path computed and stored in the inValuesVariable
-	rego = append(rego, "#  querying path: "+path.Source())
+	rego = append(rego, queryingPathComment(path.Source()))
 	pathResult := GeneratePropertySet(path, datatype.Variable.Name, iriExpander)
 	valueVariable := profile.Genvar("datatype_check")
 	rego = append(rego, fmt.Sprintf("%s_elem = %s with data.sourceNode as %s", valueVariable, pathResult.rule, datatype.Variable.Name))
